@@ -185,6 +185,7 @@ def tablesJson : Json :=
         ("tolist", .arr (s.tolist.map Json.str).toArray)]).toArray),
     ("layers", .arr (lSpecs.map fun s => Json.mkObj [
         ("name", .str s.name), ("none_is_linear", .bool s.noneIsLinear), ("hook", Json.num (s.hook : Int)),
+        ("reports", .arr (((reportedSlots.lookup s.name).getD []).map Json.str).toArray),
         ("params", .arr (s.params.map fun p => Json.mkObj [
             ("name", .str p.name), ("kind", kindToJson p.kind), ("default", argToJson p.default),
             ("required", .bool p.required), ("emitted", .bool p.emitted), ("read", .bool p.read)]).toArray)]).toArray),
@@ -247,6 +248,9 @@ def handle (j : Json) : Except String Json := do
         ("table_missing", .arr ((names.filter fun c => !customObjects.contains c).map Json.str).toArray),
         -- does the real `get_config()` raise (numpy method on a plain Python value)?
         ("get_config_raises", .bool (layerGetConfigRaises E spec L)),
+        -- what `get_quantizers()` reports: the class' reported slots, in its order
+        ("reported", .arr ((reportedQuantizers ((reportedSlots.lookup L.cls).getD []) L).map fun (k, a) =>
+            Json.arr #[.str k, argToJson a]).toArray),
         -- what the three routes do with a one-node model of this layer
         ("route", match rebuild E [⟨.q L, [0]⟩] with
                   | .ok _ => .str "ok" | .error e => .str (errStr e))]
@@ -275,6 +279,28 @@ def handle (j : Json) : Except String Json := do
       ("get_config_raises", .bool (nodeGetConfigRaises E n)),
       ("table_names", .arr (names.map Json.str).toArray),
       ("table_missing", .arr ((names.filter fun c => !customObjects.contains c).map Json.str).toArray)]
+  | "shared" =>
+    -- a layer constructor run on quantizer OBJECTS: `heap` = the objects as the user built them,
+    -- `refs` = which object each quantizer slot was given (slots may share one); the state every
+    -- slot sees afterwards, and what get_quantizers() reports
+    let cls ← getStr j "cls"
+    let objs ← (← (← j.getObjVal? "heap").getArr?).toList.mapM qobjOfJson
+    let refs ← (← (← j.getObjVal? "refs").getArr?).toList.mapM fun kv => do
+      match kv with
+      | .arr #[.str k, v] => do let i ← v.getNat?; pure (k, i)
+      | _ => throw s!"bad ref {kv.compress}"
+    match E.findL cls with
+    | none => pure <| Json.mkObj [("err", .str "unknown-class")]
+    | some spec =>
+      let ref : String → Option Nat := fun k => refs.lookup k
+      let h : QHeap := fun i => objs.getD i ⟨"?", [], []⟩
+      let h' := constructHeap E spec ref h
+      let slots := (spec.params.filter (·.kind.isQuant)).map (·.name)
+      pure <| Json.mkObj [
+        ("slots", .arr (slots.map fun k => Json.arr #[.str k, qvalToJson (slotValue h' ref k)]).toArray),
+        ("reported", .arr (((reportedSlots.lookup cls).getD []).map fun k =>
+            Json.arr #[.str k, qvalToJson (slotValue h' ref k)]).toArray),
+        ("heap", .arr ((List.range objs.length).map fun i => qobjToJson (h' i)).toArray)]
   | "mask" =>
     -- the QConv2D constructor's reshape on a given mask literal, and the reshape of its result
     -- (get_config -> from_config -> constructor)
